@@ -10,11 +10,30 @@ executing (which aioftp's ``universal_exception`` turns into PathIOError).
 import asyncio
 import io
 import pathlib
+import sys
+
+import functools
 
 from aioftp import errors, pathio
-from aioftp.pathio import AbstractAsyncLister, universal_exception
+from aioftp.pathio import AbstractAsyncLister
 
 from .simnet import CUR_SESSION
+
+
+def universal_exception(coro):
+    """aioftp's decorator, except that what the wrapped backend raised reaches the server as it is (wrapped once, by the backend,
+    with the reason the backend recorded) - the spy must not be visible in the exception either."""
+
+    @functools.wraps(coro)
+    async def wrapper(*args, **kwargs):
+        try:
+            return await coro(*args, **kwargs)
+        except (errors.PathIOError, asyncio.CancelledError, NotImplementedError, StopAsyncIteration):
+            raise
+        except Exception as exc:
+            raise errors.PathIOError(reason=sys.exc_info()) from exc
+
+    return wrapper
 
 
 class InlineExecutor:
